@@ -173,6 +173,9 @@ fn check_case(c: &Case, deviation_bound: Option<usize>, reference: &Mutex<Vec<Op
         }
         schedules.fetch_add(stats.schedules, Ordering::Relaxed);
         sink.nontrivial();
+        if c.map_order == 1 {
+            sink.sample(|| json!({"repository": repo.name, "files": repo.files.iter().map(|f| f.0.clone()).collect::<Vec<_>>(), "block_map_order": map_order, "discovery_order_index": c.walk_order, "diff_section_order_index": c.diff_order, "schedules_executed": stats.schedules, "max_choice_points": stats.max_choice_points}));
+        }
     }
 }
 
